@@ -51,6 +51,9 @@ SAFE = {
     "<core::iter::Enumerate<I> as core::iter::Iterator>::next",
     "<core::iter::Filter<I, P> as core::iter::Iterator>::next", "<core::iter::Filter<I, P> as core::iter::Iterator>::count",
     "<core::iter::Skip<I> as core::iter::Iterator>::next", "<core::iter::Take<I> as core::iter::Iterator>::next",
+    "<core::iter::Zip<A, B> as core::iter::Iterator>::next", "<core::iter::Rev<I> as core::iter::Iterator>::next",
+    "<core::iter::Copied<I> as core::iter::Iterator>::next", "<core::iter::Cloned<I> as core::iter::Iterator>::next",
+    "<core::iter::Map<I, F> as core::iter::Iterator>::next",
     "<core::str::Chars as core::iter::Iterator>::next", "<core::str::Chars as core::iter::Iterator>::count",
     "<core::str::Bytes as core::iter::Iterator>::next", "<core::str::Bytes as core::iter::ExactSizeIterator>::len",
     "core::iter::Iterator::enumerate", "core::iter::Iterator::skip", "core::iter::Iterator::take", "core::iter::Iterator::filter",
@@ -117,6 +120,9 @@ FINITE_NEXT = {
     "<core::iter::Skip<I> as core::iter::Iterator>::next", "<core::iter::Take<I> as core::iter::Iterator>::next",
     "<core::str::Chars as core::iter::Iterator>::next", "<core::str::Bytes as core::iter::Iterator>::next",
     "<util::Df88591StringChars as core::iter::Iterator>::next",
+    "<core::iter::Zip<A, B> as core::iter::Iterator>::next", "<core::iter::Rev<I> as core::iter::Iterator>::next",
+    "<core::iter::Copied<I> as core::iter::Iterator>::next", "<core::iter::Cloned<I> as core::iter::Iterator>::next",
+    "<core::iter::Map<I, F> as core::iter::Iterator>::next",
 }
 
 POSITION = re.compile(r"<core::slice::Iter<('a, )?T> as core::iter::Iterator>::position")
